@@ -362,8 +362,15 @@ Definition conc_ok (start_consistent : bool) (o : oconc) : bool :=
   end.
 Definition spec_violation (c : case) : bool :=
   let sc := consistent_b (init_db c) in
+  (* instances with different configurations at the same time are outside the property and can leave records that name
+     values their tables lack (concurrent_different_configurations_diverge): the runs after them are then judged like
+     runs on a database that did not start consistent *)
+  let sc_after := sc && match c_conc c with
+                        | Some o => match cc_cfgs o with [] => true | c0 :: r => forallb (config_eqb c0) r end
+                        | None => true
+                        end in
   negb (runs_ok sc None (c_runs c) && match c_conc c with None => true | Some o => conc_ok sc o end &&
-        runs_ok sc None (c_after c)).
+        runs_ok sc_after None (c_after c)).
 
 Definition mismatches (cs : list case) : list Z := map c_id (filter model_mismatch cs).
 Definition spec_violations (cs : list case) : list Z := map c_id (filter spec_violation cs).
